@@ -358,6 +358,95 @@ def check_helpers(prop, tier, seed, work, kind):
     return cov, violations
 
 
+PATHSTR_CFG = """SPECIFICATION Spec
+CONSTANTS
+  Sigma <- MCSigma
+  Names <- MCNames
+  KeyNames <- MCKeyNames
+  MaxLen1 = %d
+  MaxLen2 = 1
+INVARIANT RefRoundTrip
+INVARIANT RefWellFormed
+CONSTRAINT Emit
+"""
+
+
+def check_pathstr(tier, seed, work):
+    """C08: PathStr.tla enumerates every path of the bounded universe (values over the escape
+    alphabet); TLC checks that the documented grammar round-trips; each path goes through the
+    real PathToString / StringToStructuredPath / string-slice functions."""
+    h, bindir = vf.prepare(work, ["us"])
+    mc = vf.run_tlc(work, "MC_PathStr", PATHSTR_CFG % (3 if tier == "quick" else 4), tag="pathstr", timeout=1500)
+    r = run_replay(bindir, h, "pathstr", ["-in", mc["out"], "-prop", "C08"], work, "pathstr")
+    if r["evaluated"] == 0:
+        raise Infra("pathstr replay evaluated nothing")
+    for d in (r.get("drift") or [])[:10]:
+        log("SPEC-DRIFT:", d)
+    cov = dict(states=mc["distinct"], transitions=mc["states"], traces_validated_against_impl=r["evaluated"],
+               samples=[dict(path="/a[k=]/x]/m:a", note="key value ']/x' followed by a key-less element"),
+                        dict(path="/m:a[k=a//.][k2=*]/a[k==]", note="two keys, values with '//', '.', '=', '*'")],
+               exhaustive=True, counters=r.get("counters"), spec_drift=(r.get("drift") or [])[:20],
+               alphabet=["a", "/", "[", "]", "=", "\\", " ", ".", "non-ASCII letter", "*"],
+               explanation="every single-key path with a value of length <= %d over the 10-character escape alphabet (alone and followed by a "
+               "key-less element), and every two-element path with up to two keys and single-character values, is a case; TLC checks "
+               "RefDec(RefEnc(p)) = p for the documented grammar; the harness checks StringToStructuredPath(PathToString(p)) = p, "
+               "injectivity of PathToString over the whole enumeration, and the same law for the legacy string-slice form."
+               % (3 if tier == "quick" else 4))
+    return cov, r.get("violations") or []
+
+
+PATHREL_CFG = """SPECIFICATION Spec
+CONSTANTS
+  Names = {"a", "b"}
+  KVals = {"x", "y"}
+  Keys1 = {%(k1)s}
+  Keys2 = {%(k2)s}
+  MaxLen = %(maxlen)d
+  Origins <- MCOrigins
+  Mode = "%(mode)s"
+INVARIANT AlgorithmMatchesDenotation
+INVARIANT SwapSymmetry
+INVARIANT HelperLaws
+CONSTRAINT Emit
+CHECK_DEADLOCK FALSE
+"""
+
+
+def check_pathrel(tier, seed, work):
+    """C09: PathRel.tla -- every ordered pair of paths of the bounded universe; TLC checks that the
+    compositional algorithm equals the denotational definition and emits the expected relation and
+    helper-function answers; the harness runs the real util functions on every pair."""
+    h, bindir = vf.prepare(work, ["us"])
+    fams = [("pairs2", dict(k1=q(["k1", "k2"]), k2=q(["k1"]), maxlen=2, mode="pairs")),
+            ("keys3", dict(k1=q(["k1", "k2", "k3"]), k2=q(["k1"]), maxlen=1, mode="pairs")),
+            ("origins", dict(k1=q(["k1", "k2"]), k2=q(["k1"]), maxlen=1, mode="origins"))]
+    if tier == "thorough":
+        fams.append(("pairs2full", dict(k1=q(["k1", "k2"]), k2=q(["k1", "k2"]), maxlen=2, mode="pairs")))
+        fams.append(("len3", dict(k1=q(["k1"]), k2=q(["k1"]), maxlen=3, mode="pairs")))
+    states = trans = 0
+    results = []
+    for name, c in fams:
+        mc = vf.run_tlc(work, "MC_PathRel", PATHREL_CFG % c, tag=name, timeout=2400)
+        states += mc["distinct"]
+        trans += mc["states"]
+        r = run_replay(bindir, h, "pathrel", ["-in", mc["out"], "-prop", "C09"], work, name)
+        if r["evaluated"] == 0:
+            raise Infra("pathrel replay of %s evaluated nothing" % name)
+        results.append(r)
+    tot = merge_results(results)
+    cov = dict(states=states, transitions=trans, traces_validated_against_impl=tot["evaluated"],
+               samples=[dict(a="a[k1=x,k2=*]/a[k1=x]", b="a[k1=*,k2=x]/a[k1=y]", relation="Disjoint"),
+                        dict(a="a[k1=*]", b="a[k1=x]/b[k1=y]", relation="Superset")],
+               exhaustive=True, families=[f[0] for f in fams], counters=tot["counters"],
+               explanation="names {a,b}, key values {x,y,*,absent}; all ordered pairs of paths of length <= 2 with two key names on "
+               "the first element and one on the second (83 521 pairs), all pairs of single elements with three key names (16 641), "
+               "and short paths under all origin pairs; thorough adds two key names on both elements (1.1M pairs) and length 3. TLC "
+               "checks the ComparePaths-shaped algorithm against the set-of-concrete-paths definition on every pair; the harness "
+               "checks ComparePaths (8 times per pair: map order), swap symmetry, PathMatchesQuery (concrete data paths), "
+               "PathMatchesPathElemPrefix, TrimGNMIPathElemPrefix, FindPathElemPrefix, PathMatchesPrefix and JoinPaths.")
+    return cov, tot["violations"]
+
+
 PIPELINES = {
     "C10": lambda tier, seed, work: check_tree("C10", tier, seed, work, "set,setll", ["SetGetFrame"]),
     "C12": lambda tier, seed, work: check_tree("C12", tier, seed, work, "delete", ["DeleteExact"]),
@@ -369,6 +458,8 @@ PIPELINES = {
     "C05": lambda tier, seed, work: check_pairs("C05", tier, seed, work, "c05", ["MergeLaws"]),
     "C04": check_c04,
     "C13": lambda tier, seed, work: check_gnmiset("C13", tier, seed, work, "setreq", ["SetSemantics"]),
+    "C08": check_pathstr,
+    "C09": check_pathrel,
     "C15": lambda tier, seed, work: check_helpers("C15", tier, seed, work, "omap"),
     "C34": lambda tier, seed, work: check_helpers("C34", tier, seed, work, "klist"),
     "C31": lambda tier, seed, work: check_gnmiset("C31", tier, seed, work, "unmarshal,unmarshal-extra,unmarshal-extra-ignored", ["MergeFrame"]),
